@@ -338,20 +338,26 @@ def first_difference(a, b, path=()):
 # flattened views: what the runtime executes
 # ----------------------------------------------------------------------------------------
 
-VIEWS = ("instance", "replicate", "conf")
+VIEWS = ("instance", "stored", "replicate", "conf")
+# views whose document is compared with Tree.flatten: view -> (is_primitive, inject_missing_fields)
+FLAT_MODES = {"instance": (False, True), "stored": (True, False)}
 
 
 def open_view(conc, platform, view):
     """a FLATTENED form of the description held by `conc` for `platform` (read-only for `conc`):
     instance  - FlowIRConcrete(conc.instance(platform, ignore_errors=True, fill_in_all=False), platform)
+    stored    - the same with is_primitive=True, inject_missing_fields=False: the document that
+                store_unreplicated_flowir_to_disk writes to flowir_instance.yaml (what a restart loads)
     replicate - FlowIRConcrete(conc.replicate(platform, ignore_errors=True), platform): what
                 FlowIRExperimentConfiguration.replicate() installs as its `_concrete`
     conf      - FlowIRExperimentConfiguration(primitive=False, concrete=copy of conc): the object the runtime asks
                 (flattens, replicates, validates - every load ends with validate())
     returns (resolve(cid) -> answer of the observed strict call, the flattened FlowIRConcrete)"""
     F = _F()
-    if view == "instance":
-        flat = conc.instance(platform=platform, ignore_errors=True, fill_in_all=False)
+    if view in FLAT_MODES:
+        prim, inject = FLAT_MODES[view]
+        flat = conc.instance(platform=platform, ignore_errors=True, fill_in_all=False, is_primitive=prim,
+                             inject_missing_fields=inject)
         fc = F.FlowIRConcrete(flat, platform, {})
         fc.flattened_document = norm_desc_json(desc_of_raw(flat, flat["platforms"]))     # what instance() returned
     elif view == "replicate":
@@ -952,7 +958,7 @@ def run_cases(ctx, cases, tmpdir, table):
             ctx.tag("build-failed:" + type(exc).__name__)
             continue
         out = impl_resolve(conc, comp, case["platform"], case.get("prim", False), case.get("flags"))
-        plan = {"out": out, "views": [], "main": len(reqs), "strict": None, "flatten": None}
+        plan = {"out": out, "views": [], "main": len(reqs), "strict": None, "flatten": {}}
         req = {"op": "resolve", "desc": desc, "user": user_json(user), "nstages": nstages,
                "platform": case["platform"], "stage": comp[0], "name": comp[1],
                "prim": bool(case.get("prim", False)), "fuel": FUEL}
@@ -969,10 +975,12 @@ def run_cases(ctx, cases, tmpdir, table):
             if case.get("prim"):
                 plan["strict"] = len(reqs)
                 reqs.append(dict(req, prim=False))
-            if any(v[0] == "instance" for v in plan["views"]):
-                plan["flatten"] = len(reqs)
-                reqs.append({"op": "flatten", "desc": desc, "user": user_json(user), "nstages": nstages,
-                             "platform": case["platform"], "prim": False, "inject": True, "fuel": FUEL})
+            for v in plan["views"]:
+                if v[0] in FLAT_MODES:
+                    plan["flatten"][v[0]] = len(reqs)
+                    reqs.append({"op": "flatten", "desc": desc, "user": user_json(user), "nstages": nstages,
+                                 "platform": case["platform"], "prim": FLAT_MODES[v[0]][0],
+                                 "inject": FLAT_MODES[v[0]][1], "fuel": FUEL})
         plans.append(plan)
     mouts = ctx.model(reqs) if reqs else []
     for case, plan in zip(cases, plans):
@@ -1023,12 +1031,12 @@ def run_cases(ctx, cases, tmpdir, table):
             continue
         strict = mouts[plan["strict"]]["result"] if plan["strict"] is not None else mout["result"]
         for view, ans, flat, err in plan["views"]:
-            if view == "instance" and plan["flatten"] is not None:
-                mflat = mouts[plan["flatten"]]["result"]
+            if view in plan["flatten"]:
+                mflat = mouts[plan["flatten"][view]]["result"]
                 if mflat.get("error") == "unsupported":
                     ctx.tag("model:flatten-unsupported")
                 else:
-                    ctx.compare(FLATTEN_REL, slim,
+                    ctx.compare(FLATTEN_REL, dict(slim, view=view),
                                 {"ok": norm_desc_json(mflat["ok"])} if "ok" in mflat else {"error": "flatten-fails"},
                                 {"ok": flat} if ans is not None else {"error": "flatten-fails"})
             if ans is None or strict.get("error") == "unsupported":
@@ -1186,7 +1194,8 @@ def gen_sequence(rng):
     if ops[-1]["op"] != "resolveAll":
         ops.append({"op": "resolveAll"})
     r = rng.random()
-    views = ["instance"] + (["replicate"] if r < 0.2 else []) + (["conf"] if 0.1 < r < 0.35 else [])
+    views = (["instance"] + (["replicate"] if r < 0.2 else []) + (["conf"] if 0.1 < r < 0.35 else []) +
+             (["stored"] if r > 0.8 else []))
     return {"kind": "sequence", "doc": doc, "user": None, "routes": routes, "ops": ops, "tolerant": tolerant,
             "views": views}
 
@@ -1354,8 +1363,8 @@ def run_sequence(case, tmpdir):
     for P in SEQ_PLATFORMS:
         for view in case.get("views") or ["instance"]:
             ask, fc, err = try_view(conc, P, view)
-            if view == "instance":
-                flats.append((P, getattr(fc, "flattened_document", None)))
+            if view in FLAT_MODES:
+                flats.append((P, view, getattr(fc, "flattened_document", None)))
             if ask is None:
                 op_raised.append("view-%s:%s" % (view, err["error"]))
                 continue
@@ -1402,8 +1411,8 @@ def run_sequences(ctx, cases, tmpdir, table):
         for q, _ in queries + vqueries:
             reqs.append(dict(common, op="resolve", platform=q["platform"], stage=q["stage"], name=q["name"],
                              prim=q["flags"]["prim"], flags=q["flags"]))
-        for P, _ in flats:
-            reqs.append(dict(common, op="flatten", platform=P, prim=False, inject=True))
+        for P, view, _ in flats:
+            reqs.append(dict(common, op="flatten", platform=P, prim=FLAT_MODES[view][0], inject=FLAT_MODES[view][1]))
     mouts = ctx.model(reqs) if reqs else []
     for r in op_raised:
         ctx.tag("seq-read-raised:" + r)
@@ -1466,12 +1475,12 @@ def run_sequences(ctx, cases, tmpdir, table):
             ctx.compare(VIEW_REL, case, {"agree": True, "index": k, "query": q, "answer": a},
                         {"agree": False, "index": k, "query": q, "answer": b})
         fbase = vbase + len(vqueries)
-        for k, (P, flat) in enumerate(flats):
+        for k, (P, view, flat) in enumerate(flats):
             mflat = mouts[fbase + k]["result"]
             if mflat.get("error") == "unsupported":
                 ctx.tag("model:flatten-unsupported")
                 continue
-            ctx.compare(FLATTEN_REL, dict(case, platform=P),
+            ctx.compare(FLATTEN_REL, dict(case, platform=P, view=view),
                         {"ok": norm_desc_json(mflat["ok"])} if "ok" in mflat else {"error": "flatten-fails"},
                         {"ok": flat} if flat is not None else {"error": "flatten-fails"})
 
@@ -1574,7 +1583,41 @@ def _flatten_before_resolve():
     return {"kind": "sequence", "doc": doc, "user": None, "routes": routes, "ops": ops}
 
 
-SEQ_CORPUS = [_flatten_before_resolve()]
+def _primitive_before_strict(look):
+    """minimal regression input of the primitive-then-strict family: a component that is not replicated mentions
+    %(replica)s in its arguments and in an int-typed option; a primitive look-up (validate() / a primitive
+    query) comes first, every component is resolved strictly afterwards"""
+    doc = base_doc()
+    doc["components"].append({"name": "s0", "stage": 0, "command": {}, "variables": {}, "override": {}})
+    doc["variables"]["default"]["global"]["v"] = "vDG"
+    for c in doc["components"]:
+        c["command"]["arguments"] = "<%(v)s>"
+    doc["components"][0]["command"]["arguments"] = "<%(v)s> r%(replica)s"
+    doc["components"][2]["resourceRequest"] = {"threadsPerCore": "%(replica)s"}
+    ops = [look, {"op": "resolveAll"}]
+    return {"kind": "sequence", "doc": doc, "user": None, "routes": [], "ops": ops,
+            "tolerant": {"0/c0": "replica-arg", "0/s0": "replica-typed"}, "views": ["instance", "conf"]}
+
+
+SEQ_CORPUS = [_flatten_before_resolve(),
+              _primitive_before_strict({"op": "read", "what": "validate"}),
+              _primitive_before_strict({"op": "queryF", "stage": 0, "name": "c0", "platform": "default",
+                                        "flags": dict(STD_FLAGS, prim=True)}),
+              _primitive_before_strict({"op": "queryF", "stage": 0, "name": "s0", "platform": "p",
+                                        "flags": dict(STD_FLAGS, prim=True)})]
+
+
+def flat_corpus():
+    """regression inputs of the flattened views: one variable defined by exactly two scopes, for every pair of
+    the four variable scopes, on both platforms, asked through every flattened form"""
+    out = []
+    for pair in itertools.combinations(["DG", "DS", "PG", "PS"], 2):
+        for platform in ("default", "p"):
+            case = mask_case("variable-mask", 0, list(pair), [], [], platform, 0)
+            doc, user, exp = materialise_mask(case)
+            case.update(doc=doc, user=user, expect=exp, prim=False, views=list(VIEWS))
+            out.append(case)
+    return out
 
 
 def run(ctx):
@@ -1627,7 +1670,7 @@ def run(ctx):
                            "workflowAttributes.replicate) and documents without $import components")
     tmpdir = tempfile.mkdtemp(prefix="c04-")
     try:
-        cases = []
+        cases = flat_corpus()
         # (a) option masks
         layer_sets = [list(c) for r in range(len(OPT_LAYERS) + 1) for c in itertools.combinations(OPT_LAYERS, r)]
         if quick:
@@ -1677,7 +1720,10 @@ def run(ctx):
         # every case is also asked through the flattened forms of its description (what the runtime executes)
         for case in cases:
             r = rng.random()
-            case["views"] = ["instance"] + (["replicate"] if r < 0.2 else []) + (["conf"] if 0.12 < r < 0.3 else [])
+            if case.get("views"):
+                continue
+            case["views"] = (["instance"] + (["replicate"] if r < 0.2 else []) + (["conf"] if 0.12 < r < 0.3 else []) +
+                             (["stored"] if r > 0.8 else []))
             if '"replicate"' in json.dumps(case["doc"]):
                 case["views"] = ["instance"]        # a replicated component has other names: not this property
         # (g) the same cases asked with the other keyword variants of get_component_configuration
